@@ -197,7 +197,7 @@ pub fn steps_json(steps: &[Step]) -> Value {
 }
 
 pub const ALLOWANCE_MS: u64 = 2000;
-pub const UNBOUNDED_DEADLINE_MS: u64 = 120_000;
+pub const UNBOUNDED_DEADLINE_MS: u64 = 60_000;
 
 /// Run one session against a fresh engine process.
 pub fn run_session(ctx: &Ctx, steps: &[Step], rep: &mut Report) -> Result<(), Violation> {
@@ -299,7 +299,7 @@ pub fn run(ctx: &Ctx) -> Report {
         }
     }
     let cases = ctx.tier.pick(400, 8000) / ctx.shard_count() as u32;
-    run_prop(ctx, "c09", cases, 60, strategy(), &mut rep, |c, rep| {
+    run_prop(ctx, "c09", cases, 16, strategy(), &mut rep, |c, rep| {
         let steps = build_steps(c, &corp);
         if steps.is_empty() {
             return Ok(());
@@ -333,7 +333,7 @@ pub fn replay(ctx: &Ctx, case: &Value) -> Report {
 }
 
 pub const LEVEL: &str = "exploration";
-pub const RULE: &str = "UCI sessions against the real engine binary: 1..5 consecutive (position, go) pairs; positions with >= 1 legal move from startpos / corpus / synthesised / pattern starts (in-check and near-stalemate positions included) plus up to 30 plies of play; limits = any subset of {depth 1..255, nodes 1..200000 log-spaced, movetime 0..400 ms, wtime/btime 0..60000 ms, winc/binc 0..100 ms}, with depth <= 5 when nothing else bounds the work. Oracle per go: exactly one bestmove line, legal per the rules oracle, arriving before min(movetime, own clock + increment) + 2 s (120 s when only depth/nodes bound the search); a search-thread panic on stderr settles 'no bestmove' at once; then isready -> readyok within 2 s; bestmove count == go count at session end. Non-trivial = a limit can cut the first iteration (nodes <= 2000, time bound <= 20 ms, depth <= 2, only the opponent's clock), or the position is in check or has <= 3 legal moves, or it is the 2nd+ go of a session; distinct by (position, go command).";
+pub const RULE: &str = "UCI sessions against the real engine binary: 1..5 consecutive (position, go) pairs; positions with >= 1 legal move from startpos / corpus / synthesised / pattern starts (in-check and near-stalemate positions included) plus up to 30 plies of play; limits = any subset of {depth 1..255, nodes 1..200000 log-spaced, movetime 0..400 ms, wtime/btime 0..60000 ms, winc/binc 0..100 ms}, with depth <= 5 when nothing else bounds the work. Oracle per go: exactly one bestmove line, legal per the rules oracle, arriving before min(movetime, own clock + increment) + 2 s (60 s when only depth/nodes bound the search); a search-thread panic on stderr settles 'no bestmove' at once; then isready -> readyok within 2 s; bestmove count == go count at session end. Non-trivial = a limit can cut the first iteration (nodes <= 2000, time bound <= 20 ms, depth <= 2, only the opponent's clock), or the position is in check or has <= 3 legal moves, or it is the 2nd+ go of a session; distinct by (position, go command).";
 pub const ASSUMPTIONS: &[&str] = &[
     "the rules oracle decides legality of the answer",
     "deadlines are generous stand-ins for 'in time' (limit + 2 s); a harness-side spawn failure or a missing first readyok is reported as inconclusive (exit 2), never as a violation",
